@@ -132,8 +132,10 @@ def run(tier, seed):
 
     lit_cfgs = ["ConstLiteral_q5"] if quick else ["ConstLiteral_int7", "ConstLiteral_flt6", "ConstLiteral_big4"]
     fold_cfgs = ["ConstFold_t3", "ConstFold_t4s"] if quick else ["ConstFold_t3", "ConstFold_t4", "ConstFold_t5"]
+    seq_cfgs = ["ConstSeq_q"] if quick else ["ConstSeq_t"]
     pool_cfgs = ["ConstPool_q"] if quick else ["ConstPool_t", "ConstPool_t2"]
-    todo = [("ConstLiteral", c) for c in lit_cfgs] + [("ConstFold", c) for c in fold_cfgs] + [("ConstPool", c) for c in pool_cfgs]
+    todo = [("ConstLiteral", c) for c in lit_cfgs] + [("ConstFold", c) for c in fold_cfgs] + [("ConstPool", c) for c in pool_cfgs] + \
+        [("ConstSeq", c) for c in seq_cfgs]
     tl = {}
     with concurrent.futures.ThreadPoolExecutor(max_workers=3 if quick else 4) as ex:
         futs = {ex.submit(tlc_job, m, c, None, 1700, True): (m, c) for m, c in todo}
@@ -149,7 +151,8 @@ def run(tier, seed):
     # vacuity guard on the models: every named action taken, every case class present
     need = {"ConstLiteral": {"Digit", "HexLetter", "Underscore", "BasePrefix", "Dot", "Exponent", "ExpSign", "Imag", "Block"},
             "ConstFold": {"Push", "Unary", "Binary", "Compare", "Chain", "Member", "Cond"},
-            "ConstPool": {"InternFirst", "InternEqualVariant", "InternAny"}}
+            "ConstPool": {"InternFirst", "InternEqualVariant", "InternAny"},
+            "ConstSeq": {"Make", "Repeat", "Consume"}}
     action_cov = {}
     for m, c in todo:
         for a, (d, t) in tl[c].coverage.items():
@@ -166,6 +169,7 @@ def run(tier, seed):
     lit_stats = plan_literals(tier, rng, rep, [tl[c] for c in lit_cfgs], mods, plans)
     fold_stats = plan_fold(tier, rng, rep, [tl[c] for c in fold_cfgs], mods, plans)
     pool_stats = plan_pool(tier, rng, rep, [tl[c] for c in pool_cfgs], mods, plans)
+    seq_stats = plan_seq(tier, rng, rep, [tl[c] for c in seq_cfgs], mods, plans)
 
     out = mods.build_and_run(jobs)
     judged = {"n": 0, "samples": [], "nontrivial": set()}
@@ -187,6 +191,7 @@ def run(tier, seed):
         "distinct_nontrivial": len(judged["nontrivial"]),
         "exhaustive": False,
         "literals": lit_stats, "fold": fold_stats, "pool": {k: v for k, v in pool_stats.items() if not k.startswith("_")},
+        "seq": seq_stats,
         "pool_real": pool_real,
         "modules_built": len(mods.specs), "build_and_run_wall_s": round(mods.wall, 1),
         "rule": "literals: every accepted literal of the character-level grammar automaton up to the length bound (+ block-built "
@@ -480,6 +485,65 @@ def plan_fold(tier, rng, rep, tlcs, mods, plans):
                     desc = {"part": "wide", "model": "unfolded-clong-overflow" if ov else "none", "folded": lit, "top": e.op}
                     rep.disagree(desc, classify(o, want), {"src": s, "want": want, "got": o})
         stats["wide_deviations"] = wbad
+    plans.append(judge)
+    return stats
+
+
+# ---------------------------------------------------------------------------
+# part 4: repeated constant sequences
+
+
+def plan_seq(tier, rng, rep, tlcs, mods, plans):
+    quick = tier == "quick"
+    cases = {}
+    for t in tlcs:
+        for r in t.printed:
+            if "cons" in r:
+                cases.setdefault(L.render_seq_case(r), r)
+    hazards = [s for s, r in cases.items() if r["res"] != r["ires"]]
+    consumers = {r["cons"]["c"] for r in cases.values()}
+    if len(cases) < 1000 or len(hazards) < 50 or len(consumers) < 11 or len(hazards) > len(cases) // 2:
+        core.die("ConstSeq published %d cases, %d hazards, consumers %s" % (len(cases), len(hazards), sorted(consumers)))
+    for s, r in cases.items():
+        so, po = L.seq_result_obs(r["res"], r["kind"]), py_obs(s)
+        if so != po:
+            rep.spec_drift("ConstSeq result vs CPython", {"src": s, "spec": so, "python": po})
+    chosen = set(core.sample(hazards, 500 if quick else 4000, rng))
+    chosen.update(core.sample([s for s in cases if s not in chosen], 700 if quick else 5000, rng))
+    chosen = sorted(chosen)
+    rng.shuffle(chosen)
+    names = []
+    per_mod = 3000
+    for k in range(0, len(chosen), per_mod):
+        name = "c09seq%d" % (k // per_mod)
+        mods.add(name, chosen[k:k + per_mod], chosen[k:k + per_mod])
+        names.append(name)
+    stats = {"published": len(cases), "hazards_in_model": len(hazards), "replayed": len(chosen)}
+
+    def judge(out, mods_, judged):
+        dev = 0
+        for name in names:
+            obs, err = out[name]
+            chunk = mods_.meta[name][2]
+            if err:
+                rep.disagree({"part": "seq", "form": "module", "stage": err.split(":")[0]}, "build-failed", {"module": name, "error": err})
+                continue
+            for s, o in zip(chunk, obs):
+                r = cases[s]
+                want = L.seq_result_obs(r["res"], r["kind"])
+                judged["n"] += 1
+                judged["nontrivial"].add(s)
+                if o != want:
+                    dev += 1
+                    hz = r["res"] != r["ires"]
+                    pred = L.seq_result_obs(r["ires"], r["kind"])
+                    desc = {"part": "seq", "hazard": "stale-repeat-constant" if hz else "none", "consumer": r["cons"]["c"],
+                            "kind": r["kind"], "stale": r["stale"]}
+                    rep.disagree(desc, "impl-model-value" if hz and o == pred else classify(o, want),
+                                 {"src": s, "want": want, "got": o, "impl_model": pred})
+                elif len([x for x in judged["samples"] if x["part"] == "seq"]) < 1 and r["stale"]:
+                    judged["samples"].append({"part": "seq", "src": s, "expected": want, "got": o})
+        stats["deviations"] = dev
     plans.append(judge)
     return stats
 
